@@ -14,6 +14,8 @@ fn main() {
         "C10" => engines::c10::main(&args),
         "C11" => engines::c11::main_c11(&args),
         "C12" => engines::c11::main_c12(&args),
+        "C11child" => engines::c11::child_c11(),
+        "C12child" => engines::c11::child_c12(),
         "C26" => engines::c26::main(&args),
         "C26child" => engines::c26::child_main(),
         "C21" => engines::c21::main(&args),
